@@ -19,6 +19,8 @@ HARNESSES = {
     "C13": ["hvs"],
     # bounded conformance of the real bbolt wallet store against the assumed storage.WalletDB counter contracts
     "C19": ["wdbconf"],
+    # which error value the CLN adapter returns for which node answer (error identity is opaque in the proof model)
+    "C05": ["clnconf"],
 }
 
 
